@@ -61,7 +61,9 @@ def problem(cfg, rng, pick=None):
            "alpha": (0.5, 1.0), "lens_angle": (0.5, 1.1)}
     if cfg["start"] in ("on_lower", "on_upper"):
         # one parameter starts exactly on a bound of its prior, the generating value 1-3 % inside
-        k = pick if pick in truth else rng.choice(sorted(truth))
+        # (a generating value of exactly 0 cannot be "1-3 % inside" a bound placed relative to it)
+        cands = [k_ for k_ in sorted(truth) if truth[k_] != 0]
+        k = pick if (pick in truth and truth[pick] != 0) else rng.choice(cands)
         d = rng.uniform(0.01, 0.03)
         if cfg["start"] == "on_upper":
             box[k] = (box[k][0], truth[k] + abs(truth[k]) * d)
